@@ -337,3 +337,16 @@ Definition check_okb_case (x : circuit * bool) : bool := Bool.eqb (bench_okb (fs
 Definition check_parse_case (x : string * bool * res circuit) : bool :=
   let '(text, via_file, r) := x in
   res_circuit_eqb (if via_file then from_bench_file_content text else parse_bench text) r.
+
+(* the regenerated tables against the live Python objects: _processings (key, type of the gate the
+   handler builds, named operands, *args), VDD_NAME / BUFF_NAME; Gate.format_gate per type *)
+Definition check_dispatch_case (x : list (string * gtype * nat * bool) * string * string) : bool :=
+  let '(tbl, vdd, buff) := x in
+  String.eqb vdd VDD_NAME && String.eqb buff BUFF_NAME
+  && all_eqb (fun a b =>
+       let '(k, t, n, v) := a in
+       let '(k2, t2, n2, v2) := b in
+       String.eqb k k2 && gtype_beq t t2 && Nat.eqb n n2 && Bool.eqb v v2)
+     tbl (map (fun kh => (fst kh, htype (snd kh), hnamed (snd kh), hvarargs (snd kh))) processings).
+Definition check_format_gate_case (x : string * gtype * list label * string) : bool :=
+  let '(l, t, ops, text) := x in String.eqb (format_gate l (mkGate t ops)) text.
